@@ -3,7 +3,8 @@
    for every slice off a character boundary / out of range and for every usize overflow, and with fuel for
    the one loop whose termination is not structural.  For EVERY input text (list of code points; the str
    type invariant) shorter than 2^64 bytes and for EVERY pair of Unicode tables is_alphabetic / is_numeric:
-   the tokenizer answers with tokens or with the error "Unhandled character", never panics, needs at most
+   the tokenizer answers with tokens or with one of its two errors (unhandled character, unterminated quoted
+   string), never panics, needs at most
    one iteration per character (+1), takes only in-bounds slices on character boundaries, and its tokens
    tile the input. *)
 From Coq Require Import NArith List Bool.
@@ -15,15 +16,20 @@ Open Scope N_scope.
 Theorem C15lex_lexer_total : forall is_alpha is_numeric q,
   blen q < USIZE ->
   (exists toks st, tokenize is_alpha is_numeric q = Ok (toks, st)) \/
-  (exists c, tokenize is_alpha is_numeric q = Err c).
+  (exists e, tokenize is_alpha is_numeric q = Err e).
 Proof. exact lexer_total. Qed.
 Print Assumptions C15lex_lexer_total.
 
-(* the only error is "Unhandled character: c" for a character of the input that starts no token *)
-Theorem C15lex_lexer_error_only_unhandled : forall is_alpha is_numeric q c,
-  blen q < USIZE -> tokenize is_alpha is_numeric q = Err c -> In c q /\ arm_of is_alpha c = AUnhandled.
-Proof. exact lexer_error_only_unhandled. Qed.
-Print Assumptions C15lex_lexer_error_only_unhandled.
+(* the only errors are "Unhandled character: c" for a character of the input that starts no token, and
+   "Unterminated quoted string" for an opening single or double quote (code point 39 or 34) whose content
+   (doubled quotes are escapes) runs to the end of the input *)
+Theorem C15lex_lexer_errors_characterised : forall is_alpha is_numeric q e,
+  blen q < USIZE -> tokenize is_alpha is_numeric q = Err e ->
+  exists pre c r, q = pre ++ c :: r /\
+    ((e = Unhandled c /\ arm_of is_alpha c = AUnhandled) \/
+     (exists body, e = Unterminated c /\ (c = 39 \/ c = 34) /\ r = escape c body)).
+Proof. exact lexer_errors_characterised. Qed.
+Print Assumptions C15lex_lexer_errors_characterised.
 
 (* every &self.query[a..b] evaluated on the way (ghost log `slog`) has a <= b <= len, both on char boundaries *)
 Theorem C15lex_lexer_slices_in_bounds : forall is_alpha is_numeric q toks st,
@@ -38,7 +44,8 @@ Proof. exact str_slice_ok_iff. Qed.
 Print Assumptions C15lex_slice_panics_iff_out_of_bounds.
 
 (* the tokens tile the input: consecutive NON-EMPTY source texts (each iteration consumes >= 1 character),
-   start_idx = byte offset of the source text, each token spells its source text (`spells`) *)
+   start_idx = byte offset of the source text, each token spells its source text (`spells`: the text of a string /
+   quoted identifier token is the source between the quotes with doubled quotes collapsed, `escape`) *)
 Theorem C15lex_lexer_tokens_cover_input : forall is_alpha is_numeric q toks st,
   blen q < USIZE -> tokenize is_alpha is_numeric q = Ok (toks, st) -> tiles is_alpha is_numeric 0 q toks.
 Proof. exact lexer_tokens_cover_input. Qed.
@@ -65,12 +72,15 @@ Print Assumptions C15lex_keywords_strictly_sorted.
 (* the hypotheses are satisfiable and both outcomes occur (ASCII letters as the alphabetic table) *)
 Definition ascii_alpha (c : N) : bool := ((65 <=? c) && (c <=? 90)) || ((97 <=? c) && (c <=? 122)).
 Definition no_numeric (c : N) : bool := false.
-Example C15lex_example_ok :   (* a<='x *)
-  blen [97; 60; 61; 39; 120] < USIZE /\
-  exists st, tokenize ascii_alpha no_numeric [97; 60; 61; 39; 120] =
-    Ok ([mk_twl (TWord [97] None None) 0 0 0; mk_twl (TOp OLtEq) 1 0 2; mk_twl (TString [120]) 3 0 3], st).
+Example C15lex_example_ok :   (* a<='it''s' *)
+  blen [97; 60; 61; 39; 105; 116; 39; 39; 115; 39] < USIZE /\
+  exists st, tokenize ascii_alpha no_numeric [97; 60; 61; 39; 105; 116; 39; 39; 115; 39] =
+    Ok ([mk_twl (TWord [97] None None) 0 0 0; mk_twl (TOp OLtEq) 1 0 2; mk_twl (TString [105; 116; 39; 115]) 3 0 6], st).
 Proof. split; [reflexivity | eexists; vm_compute; reflexivity]. Qed.
-Example C15lex_example_err : tokenize ascii_alpha no_numeric [97; 123] = Err 123.
+Example C15lex_example_err : tokenize ascii_alpha no_numeric [97; 123] = Err (Unhandled 123).
+Proof. vm_compute. reflexivity. Qed.
+Example C15lex_example_unterminated :   (* 'it'' *)
+  tokenize ascii_alpha no_numeric [39; 105; 116; 39; 39] = Err (Unterminated 39).
 Proof. vm_compute. reflexivity. Qed.
 
 (* ---- the parser skeleton (model/ParserSkel.v: Parser::next / peek_nth / ... and the Pratt expression parser of
